@@ -70,7 +70,7 @@ class C23(Prop):
     SHARD_TIMEOUT = 2400
     COQ_SHARD = 35
     LEVEL_TEXT = (
-        "Coq theorems (22, closed under the global context) over a byte-level model of the async tar reader and "
+        "Coq theorems (26, closed under the global context) over a byte-level model of the async tar reader and "
         "writer (TellableStreamWrapper.read, SeekableStreamReaderWrapper.seek, FileStreamReaderWrapper.read, "
         "copyfileobj/write, TarInfo.frombuf incl. checksum/octal fields/ustar prefix, GNU long names, "
         "AioTarStream.next, extract_tar_stream; TarInfo.tobuf(GNU_FORMAT), addfile, _close): (a) outcome and "
@@ -82,8 +82,10 @@ class C23(Prop):
         "also through any chunking, with the block-level (frombuf after _create_header) and field-level lemmas. "
         "The pre-fix code is kept as [legacy] and refuted by vm_compute witnesses. Partial: cuts at or inside a "
         "later header and a corrupted later header end the archive silently (as CPython's tarfile does): stated "
-        "as _refuted and listed as known findings; general prefix-stability under truncation is not proved; PAX/"
-        "sparse members and the extraction of links are exercised by the correspondence/oracle only.")
+        "as _refuted and listed as known findings, and C23_truncation_prefix/_boundary prove that this is the only "
+        "way a cut stream returns normally with members missing (any prefix of any stream, common fuel: ReadError "
+        "or a prefix of the member list); symlink targets are extracted verbatim and hard-link targets relative "
+        "to the root (fix 35e756c); PAX/sparse members are exercised by the oracle only.")
     LEVEL_NOTE = (
         "Trusted: Coq kernel + vm_compute; the hand-written model TarStream/Model.v (tied to /repo only by the "
         "correspondence run on generated archives); CPython tarfile.TarInfo.frombuf/tobuf, GNU tar, the filesystem. "
@@ -99,7 +101,7 @@ class C23(Prop):
             "corrupted header, in the three destination configurations (dir->absent, file->absent, file->existing "
             "dir); write: real trees archived by the async writer and read back by Python tarfile, GNU tar and the "
             "async reader. Non-trivial = chunk size < 4096 or a fault or a long name or >= 3 entries. Distinct = "
-            "distinct canonical JSON. Big files (up to 3 MiB) and PAX/link cases are oracle-only.")
+            "distinct canonical JSON. Big files (up to 3 MiB) and PAX cases are oracle-only; symlink and hard-link members are in the model's domain.")
     TRUSTED = ("model: TarStream/Model.v is hand-written; CPython's tarfile (frombuf and tobuf(GNU_FORMAT) are re-modelled and tied by the correspondence), "
                "GNU tar 1.34, os/filesystem calls are not verified, only exercised",)
     ASSUMPTIONS = ("the underlying reader behaves like asyncio.StreamReader.read: at most n bytes, b'' only at EOF",
@@ -188,7 +190,7 @@ class C23(Prop):
             r = rng.random()
             cfg = "A" if r < 0.6 else ("B" if r < 0.8 else "C")
             oracle_only = rng.random() < 0.3
-            links = oracle_only and cfg == "A" and rng.random() < 0.5
+            links = cfg == "A" and rng.random() < (0.5 if oracle_only else 0.3)
             big = oracle_only and not links and rng.random() < 0.25
             if oracle_only:
                 w = rng.choice(["py-pax", "gnutar-posix", "py-gnu", "gnutar-gnu", "aio-gnu"])
@@ -644,13 +646,16 @@ class C23(Prop):
         if c["f"] == "extract" and (o or {}).get("w", c["w"]) in ("py-pax", "gnutar-posix"):
             return False
         for e in c["tree"]:
-            if e["k"] not in ("d", "f") or isinstance(e.get("c"), dict):
+            if e["k"] not in ("d", "f", "l", "h") or isinstance(e.get("c"), dict):
                 return False
         return True
 
     def _coq_tree(self, tree):
         out = []
         for p, k, m, x in tree:
+            if k == "l":
+                out.append(f"({coq_bytes(p.encode('latin-1'))},(2,0,{coq_rle(x.encode('latin-1'))}))%N")
+                continue
             if k not in ("d", "f"):
                 return None
             out.append(f"({coq_bytes(p.encode('latin-1'))},({0 if k == 'd' else 1},{m},{coq_rle(unb64(x))}))%N")
